@@ -19,6 +19,10 @@
       - the loop between "required" and "layout" (reserveRegionFn, earlyAllocFrame, mapFn, kernel.Memset) is NOT translated:
         [data] stands for the address it reserved; its model is [map_pages] (tied by the correspondence run and the monitor
         c03:state-outside-reserved-block only).
+    Side conditions (audit A): C03_setupPoolBitmaps_is_model needs the number of entries < 2^64 (pool counter does not
+    wrap); C03_init_with_model_setup ASSUMES through its oracle hypothesis that setupPoolBitmaps answers with the model's
+    set-up (it is not derived from the Go function) and covers only the path on which the model's set-up succeeds
+    (reserve limit not exceeded, map_pages = MGo, layout fits), plus the size / fuel conditions of C03_init_is_translation.
     Statements only; proofs are in Pmm/BitmapTrans5.v. *)
 From Coq Require Import NArith String List.
 From FF Require Import Lib.Word Lib.GoOps Lib.GoVisit Gen.Consts_mm_pmm Gen.Trans_pmm_bitmap Pmm.Boot Pmm.Bitmap.
